@@ -241,4 +241,129 @@ def commitReversed (s : CSys) (id : Nat) (readers : List Key) : Option CSys :=
     | none => none
     | some (i', _) => some { s2 with inner := i', ctxns := setC s2.ctxns id { c with finished := true } }
 
+/-! ### the commit window at LOCK granularity
+
+`cache.Get(k)` on the parent cache is, in code order: acquire the READ lock of `k`'s lock stripe; LRU lookup
+(a hit returns at once); on a miss read the backend; `lru.Add` the result (negative results included); release.
+`cacheTransaction.Commit` is: the underlying commit; then for every modified key: acquire the WRITE lock of the
+key's stripe (blocked while any reader holds that stripe's read lock), `lru.Remove(key)`, release. Locks are the
+256 stripes of `locksutil` (`stripe : Key → Nat`, a parameter: the theorems hold for every assignment, collisions
+included). Any number of readers; schedules interleave reader micro-steps with the commit's. A blocked step is a
+no-op. (A reader may acquire while the writer is still waiting: Go's writer preference only removes schedules.)
+`locking = false` is a MODEL VARIANT, not the code: the eviction takes no lock. -/
+
+inductive RPc where
+  | start                          -- not yet holding the lock
+  | locked                         -- read lock held, nothing done yet
+  | hit (e : Option Val)           -- LRU hit, lock still held
+  | missed                         -- LRU miss, backend not yet read
+  | fetched (e : Option Val)       -- backend read returned, not yet added
+  | filled (e : Option Val)        -- added to the LRU, lock still held
+  | done (e : Option Val)          -- lock released, `e` returned
+  deriving DecidableEq, Repr
+
+def RPc.holds : RPc → Bool
+  | .start => false
+  | .done _ => false
+  | _ => true
+
+structure Reader where
+  key : Key
+  pc : RPc
+  deriving DecidableEq, Repr
+
+inductive WLock where
+  | free
+  | held (k : Key)         -- write lock of `k`'s stripe held, `k` not yet removed
+  | removed (k : Key)      -- `k` removed, lock not yet released
+  deriving DecidableEq, Repr
+
+structure MWin where
+  w : Win                  -- the commit's progress: `before`, `invalidating (k :: rest)` = `k` is next, `done`
+  lock : WLock
+  readers : List Reader
+  locking : Bool           -- `true` = the code; `false` = the lock-free variant of the eviction
+  deriving Repr
+
+inductive MStep where
+  | spawn (k : Key)        -- a new concurrent `cache.Get(k)` is invoked
+  | reader (i : Nat)       -- reader `i` performs its next micro-step (no-op when blocked or finished)
+  | commit                 -- the committing goroutine performs its next micro-step (no-op when blocked or finished)
+  deriving DecidableEq, Repr
+
+def MWin.start (s : CSys) (id : Nat) (locking : Bool) : Option MWin :=
+  (Win.start s id).map fun w => { w := w, lock := .free, readers := [], locking := locking }
+
+/-- does the committing goroutine hold the write lock of `k`'s stripe -/
+def MWin.writerHolds (m : MWin) (stripe : Key → Nat) (k : Key) : Bool :=
+  match m.lock with
+  | .free => false
+  | .held k' => m.locking && stripe k' == stripe k
+  | .removed k' => m.locking && stripe k' == stripe k
+
+/-- does some reader hold the read lock of `k`'s stripe -/
+def MWin.readerHolds (m : MWin) (stripe : Key → Nat) (k : Key) : Bool :=
+  m.readers.any fun r => r.pc.holds && stripe r.key == stripe k
+
+def MWin.setLru (m : MWin) (lru : Lru) : MWin := { m with w := { m.w with sys := { m.w.sys with lru := lru } } }
+
+/-- one micro-step of a reader -/
+def MWin.readerStep (m : MWin) (stripe : Key → Nat) (r : Reader) : MWin × Reader :=
+  match r.pc with
+  | .start => if m.writerHolds stripe r.key then (m, r) else (m, { r with pc := .locked })
+  | .locked =>
+    match m.w.sys.lru.lookup r.key with
+    | some e => (m, { r with pc := .hit e })
+    | none => (m, { r with pc := .missed })
+  | .hit e => (m, { r with pc := .done e })
+  | .missed => (m, { r with pc := .fetched (sget m.w.sys.inner.parent r.key) })
+  | .fetched e => (m.setLru (lruSet m.w.sys.lru r.key e), { r with pc := .filled e })
+  | .filled e => (m, { r with pc := .done e })
+  | .done _ => (m, r)
+
+/-- one micro-step of the committing goroutine -/
+def MWin.commitStep (m : MWin) (stripe : Key → Nat) : MWin :=
+  match m.w.phase, m.lock with
+  | .before, _ => { m with w := m.w.tick }
+  | .invalidating _, .removed _ => { m with lock := .free }
+  | .invalidating [], _ => { m with w := m.w.tick }
+  | .invalidating (k :: _), .free =>
+    if m.locking && m.readerHolds stripe k then m else { m with lock := .held k }
+  | .invalidating (_ :: _), .held k => { m with w := m.w.tick, lock := .removed k }
+  | .done, _ => m
+
+def MWin.step (m : MWin) (stripe : Key → Nat) : MStep → MWin
+  | .spawn k => { m with readers := m.readers ++ [{ key := k, pc := .start }] }
+  | .reader i =>
+    match m.readers[i]? with
+    | none => m
+    | some r => let (m', r') := m.readerStep stripe r; { m' with readers := m'.readers.set i r' }
+  | .commit => m.commitStep stripe
+
+def MWin.run (m : MWin) (stripe : Key → Nat) : List MStep → MWin
+  | [] => m
+  | st :: r => (m.step stripe st).run stripe r
+
+/-- `Commit` has returned and every reader has returned -/
+def MWin.quiescent (m : MWin) : Bool :=
+  m.w.phase == .done && m.lock == .free && m.readers.all fun r => match r.pc with | .done _ => true | _ => false
+
+/-- schedules with lock-granular commit windows. A window that is left before everything returned is closed by
+    letting `Commit` run to its end and abandoning the unfinished readers (they add nothing any more). -/
+inductive LEvent where
+  | ev (e : Event)
+  | window (id : Nat) (sched : List MStep)
+  deriving Repr
+
+def CSys.runL (stripe : Key → Nat) : CSys → List LEvent → CSys
+  | s, [] => s
+  | s, .ev e :: r =>
+    match s.step e with
+    | none => CSys.runL stripe s r
+    | some (s', _) => CSys.runL stripe s' r
+  | s, .window id sched :: r =>
+    match MWin.start s id true with
+    | none => CSys.runL stripe s r
+    | some m => CSys.runL stripe ((m.run stripe sched).w.finish.sys) r
+
 end Obao.CacheTxn
